@@ -596,6 +596,13 @@ func (g *c18Gen) genOp(follow *followUp) (C18Op, *followUp) {
 			name, note = string(fd.Name()), "bad-name"
 		}
 		v, vnote := g.valueFor(fd.Message(), false)
+		if note == "" && v != nil && isWrapperDesc(fd.Message()) && fd.Message().Name() != "ContainedResource" && g.r.p(0.3) {
+			// the JSON spelling of a choice element (valueQuantity, deceasedBoolean): not an element
+			// name of the FHIRPath model, which knows the choice only as value / deceased
+			if tn, ok := fhirTypeName(v.ProtoReflect().Descriptor()); ok {
+				name, note = name+strings.ToUpper(tn[:1])+tn[1:], "bad-name"
+			}
+		}
 		if note == "" {
 			note = vnote
 		} else if vnote != "" {
